@@ -41,6 +41,13 @@ def fn_items_in(prog, body, op, depth=0):
     elif r[0] == "agg":
         if r[1].get("closure"):
             out.append("closure:" + r[1]["closure"])
+            # what an inline comparator closure applies: the comparison impls it calls
+            cb = prog.bodies.get(r[1]["closure"])
+            if cb is not None:
+                for _bi, ct in cb.calls():
+                    cn = strip_generics(mir.callee_name(ct) or "")
+                    if re.search(r"std::cmp::Partial(Eq|Ord)(>)?::(eq|ne|lt|le|gt|ge)$", cn) and "Discriminant" not in cn:
+                        out.append(cn)
         for o in r[1]["ops"]:
             out += fn_items_in(prog, body, o, depth + 1)
     return out
@@ -392,6 +399,59 @@ def check_cmp_guards(ctx, rep):
     return n
 
 
+def _loop_reduction(b, field, child):
+    """'any' / 'all' / None for a loop over self.<field> that returns early on the child's eval"""
+    ev = None
+    for bi, t in b.calls():
+        nm = strip_generics(mir.callee_name(t) or "")
+        if nm.endswith("nodes::%s as haystack::filter::eval::Eval>::eval" % child):
+            ev = (bi, t)
+    if ev is None:
+        return None
+    bi, t = ev
+    # the iteration: a next() over an iterator of self.<field>, forward
+    hdr = None
+    for g in G.guards_at(b, bi):
+        if g.a is not None and g.a.kind == "discr" and g.op == "Eq" and g.b.v == 1 and g.a.args and "Iterator>::next" in repr(g.a.args[0]) and field in repr(g.a.args[0]) and "rev" not in repr(g.a.args[0]).lower():
+            hdr = g
+    if hdr is None:
+        return None
+    sw = b.term(t["t"]) if "t" in t else None
+    sb = t.get("t")
+    hops = 0
+    while sw is not None and sw["k"] != "switch" and hops < 4:
+        hops += 1
+        nx = b.succ(sb)
+        if len(nx) != 1:
+            return None
+        sb = nx[0]
+        sw = b.term(sb)
+    if sw is None or sw["k"] != "switch" or sw.get("ty") != "bool":
+        return None
+    d = G.describe(b, sw["op"])
+    neg = d.kind == "unop" and d.v == "Not"
+    vals = {int(v): tb for v, tb in sw["targets"]}
+    e_false = vals.get(0, sw["otherwise"] if 1 in vals else None)
+    e_true = vals.get(1, sw["otherwise"] if 0 in vals else None)
+    if neg:
+        e_false, e_true = e_true, e_false
+    # exhaustion edge of the loop
+    hsw = b.term(hdr.block)
+    hv = {int(v): tb for v, tb in hsw["targets"]}
+    e_done = hv.get(0, hsw["otherwise"] if 1 in hv else None)
+    r_true = K.arm_result(b, e_true) if e_true is not None else None
+    r_false = K.arm_result(b, e_false) if e_false is not None else None
+    r_done = K.arm_result(b, e_done) if e_done is not None else None
+    back_true = hdr.block in b.reachable(e_true) if e_true is not None else False
+    back_false = hdr.block in b.reachable(e_false) if e_false is not None else False
+    if r_true and r_true[0] == "const" and r_true[1] == 1 and not back_true and back_false and r_done and r_done[0] == "const" and r_done[1] == 0:
+        return "any"
+    if r_false and r_false[0] == "const" and r_false[1] == 0 and not back_false and back_true and r_done and r_done[0] == "const" and r_done[1] == 1:
+        return "all"
+    return None
+
+
+
 def check_reductions(ctx, rep):
     prog = ctx.prog
     n = 0
@@ -425,6 +485,13 @@ def check_reductions(ctx, rep):
                     why = "closure does not return the child's eval unchanged" if not good else ""
             elif nm.endswith("Iterator>::any") or nm.endswith("Iterator>::all") or nm in ("std::iter::Iterator::any", "std::iter::Iterator::all"):
                 why = "uses %s where %s is required" % (nm.split("::")[-1], red)
+        if not ok:
+            # the explicit-loop spelling: `for c in &self.<field> { if c.eval(ctx) { return true } } false` (ANY), dually for ALL
+            got = _loop_reduction(b, field, child)
+            if got == red:
+                ok = True
+            elif got is not None:
+                why = "the loop computes %s where %s is required" % (got.upper(), red.upper())
         if ok:
             rep.ok("T-REDUCE", key, b.where(), "%s over self%s of the children's eval" % (red.upper(), field))
         else:
